@@ -404,6 +404,10 @@ fn bad_cast(rep: &mut Report, case_no: u64) {
     }
 }
 
+fn bad_cast_case(rep: &mut Report) {
+    bad_cast(rep, 49)
+}
+
 pub fn run(args: &Args) -> i32 {
     let mut rep = Report::new(args);
     let small = args.has("--small");
@@ -418,9 +422,9 @@ pub fn run(args: &Args) -> i32 {
         }
         let mut rng = Rng::new(args.case_seed(c));
         if c % 50 == 49 {
-            bad_cast(&mut rep, c);
+            guard_case(&mut rep, c, bad_cast_case);
         } else {
-            history(&mut rng, &mut rep, c, if small { 25 } else { 70 });
+            guard_case(&mut rep, c, |rep| history(&mut rng, rep, c, if small { 25 } else { 70 }));
         }
     }
     rep.finish();
